@@ -119,6 +119,8 @@ def shrink_candidates(c):
         bad = [r for r, v in zip(c["runs"], verdicts(c)) if not v]
         if bad and len(bad) < len(c["runs"]):
             yield dict(c, runs=bad[:1])
+    if any((r.get("err") or "").startswith("HANG") for r in c["runs"]):
+        return  # every replay of a hanging setting costs its whole timeout
     for i in range(len(text)):
         t = text[:i] + text[i + 1:]
         yield dict(c, file=list(b"\n".join(t)))
